@@ -184,6 +184,9 @@ def popcount(x):
 
 
 def run(c):
+    import gen_params as gp_mod
+    for pbm in gp_mod.generate_symbol(c.snap)["problems"]:      # bit macros of of_matrix_dense.h, regenerated; Properties_C18.v ties them to testbit / setbit
+        c.proof_failed.append({"translator": pbm})
     import gen_funcs
     for p in gen_funcs.gen_popcount(c.snap)["problems"]:
         c.proof_failed.append({"translator": p})
